@@ -280,6 +280,13 @@ static void srv_boot(int prestate)
 			int l = tm_ippkt(ip, 40, 0x0A000002, 0xC0A80101u, 5), zl = tm_compress(ip, l, z, sizeof z);
 			n = tm_data(pkt, 0x803, 10, 0, 1, 0, 0, 0, 0, 'a', REF_B32, z, zl / 2, DOM); srv_deliver(&A_ADDR, pkt, n);
 		}
+		if (prestate == 3) {
+			/* both sessions in raw mode: raw data frames are now accepted (to the tun, or relayed to the other session) */
+			unsigned char h[16];
+			ref_login(pw32, seedA + 1, h); n = tm_raw(pkt, 0x10, 0, h, 16); srv_deliver(&A_ADDR, pkt, n);
+			ref_login(pw32, seedB + 1, h); n = tm_raw(pkt, 0x10, 1, h, 16); srv_deliver(&B_ADDR, pkt, n);
+			if (!s_w_users()[0].authenticated_raw || !s_w_users()[1].authenticated_raw) vw_fatal("raw logins of the pre-state not accepted");
+		}
 	} else {
 		other_len = tm_ping(other_dgram, 0x802, 10, 1, 0, 0, 0x2345, DOM);
 	}
@@ -306,7 +313,13 @@ static void srv_shapes(int prestate)
 		n = tm_setfrag(pkt, 0x909, 10, 0, 300, 0x88, DOM); shapes_from_seed(pkt, n, 0, "fragment-size request of session A", step);
 		ref_login(pw32, seedA + 1, h); n = tm_raw(pkt, 0x10, 0, h, 16); shapes_from_seed(pkt, n, 0, "raw login of session A", 1);
 		n = tm_raw(pkt, 0x30, 0, NULL, 0); shapes_from_seed(pkt, n, 0, "raw ping", 1);
-		n = tm_raw(pkt, 0x20, 0, z, zl); shapes_from_seed(pkt, n, 0, "raw data", step);
+		n = tm_raw(pkt, 0x20, 0, z, zl); shapes_from_seed(pkt, n, 0, "raw data", prestate == 3 ? 1 : step);
+		if (prestate == 3) {
+			/* a frame for the other session's tunnel address (relayed, not written to the tun), and one for user 1 sent by A */
+			l = tm_ippkt(ip, 40, 0x0A000002, 0x0A000003, 7); zl = tm_compress(ip, l, z, sizeof z);
+			n = tm_raw(pkt, 0x20, 0, z, zl); shapes_from_seed(pkt, n, 0, "raw data for the other session", 1);
+			n = tm_raw(pkt, 0x20, 1, z, zl); shapes_from_seed(pkt, n, 0, "raw data naming the other session's user id", 2);
+		}
 		pointer_shapes(0x90a, 0, 0, 10);
 	}
 	pointer_shapes(0x90b, 0, 2, 10);
@@ -356,7 +369,7 @@ static void srv_deliver_shape(const shape *sh)
 	srv_deliver(src, sh->d, sh->len);
 }
 
-static const char *SRV_PRE[3] = { "server, no session", "server, sessions A and B logged in (lazy), each with a held ping", "server, session A in the middle of an upstream packet" };
+static const char *SRV_PRE[4] = { "server, no session", "server, sessions A and B logged in (lazy), each with a held ping", "server, session A in the middle of an upstream packet", "server, sessions A and B logged in and switched to raw UDP mode" };
 
 /* ================================================================ client side */
 static unsigned char cli_lastq[700]; static int cli_lastqlen;
@@ -483,14 +496,14 @@ static void cli_shapes(int cell)
 static void job(int j)
 {
 	mk_crafted();
-	if (j < 3) {
+	if (j < 4) {
 		srv_boot(j);
 		srv_shapes(j);
 		xp_sample("%s: %d datagram shapes x %d residues, e.g. '%s' / '%s'", SRV_PRE[j], nsh, NRES, SH[nsh / 3].desc, SH[nsh - 20].desc);
 		run_shapes(0, SRV_PRE[j], srv_deliver_shape);
 		return;
 	}
-	int cell = j - 3;
+	int cell = j - 4;
 	ns_cfg cfg; ns_defaults(&cfg);
 	cfg.qtype = CLI_T[cell]; cfg.downenc = CLI_O[cell]; cfg.lazy = 1; cfg.fragsize = cell >= 2 && cell < 6 ? 100 : 0;
 	cfg.raw = cell == 6;
@@ -533,7 +546,7 @@ int main(int argc, char **argv)
 	xp_guard(NULL, &W.cur, 1);
 	if (a.replay) { xp_load_replay(a.replay); job(XC.job); return 0; }
 	hc_quiet();
-	xp_run_jobs(3 + 7, job, a.workers);
+	xp_run_jobs(4 + 7, job, a.workers);
 	char extra[400];
 	snprintf(extra, sizeof extra, "\"shapes\":%ld,\"deliveries\":%ld,\"server_shapes\":%ld,\"client_shapes\":%ld,\"shapes_with_a_reaction\":%ld,\"residues\":%d,\"sanitizer_notes_for_C05_C06\":%ld",
 		 XS->counters[K_SHAPES], XS->counters[K_DELIVERIES], XS->counters[K_SRV_SHAPES], XS->counters[K_CLI_SHAPES], XS->counters[K_REACTIONS], NRES, XS->counters[K_SAN]);
